@@ -48,9 +48,14 @@ func concChar(c string, punct string) string {
 	return "?"
 }
 
-func concLine(cs []string, n int) string {
+func concLine(cs []string, n int) string { return concLineP(cs, n, 0) }
+
+func concLineP(cs []string, n int, pk int) string {
 	var b strings.Builder
 	punct := linePunct[n%len(linePunct)]
+	if pk > 0 {
+		punct = linePunct[(pk-1)%len(linePunct)]
+	}
 	for _, c := range cs {
 		b.WriteString(concChar(c, punct))
 	}
@@ -107,9 +112,10 @@ func absText(s string) []string {
 }
 
 type lineBeh struct {
-	Mode string            `json:"mode"`
-	Rec  []json.RawMessage `json:"rec"`
-	Line []string          `json:"line"`
+	Punct int               `json:"-"` // 0: by line number; k > 0: linePunct[k-1]
+	Mode  string            `json:"mode"`
+	Rec   []json.RawMessage `json:"rec"`
+	Line  []string          `json:"line"`
 }
 
 // lineModel runs the character-level family for one property (C15: valid records; C14: raw lines).
@@ -193,10 +199,39 @@ func lineModel(e *Env, r *Report, prop string) {
 		rand.New(rand.NewSource(e.Seed)).Shuffle(len(rest), func(i, j int) { rest[i], rest[j] = rest[j], rest[i] })
 		behs = append(behs[:keep], rest[:sample-keep]...)
 	}
+	// lines that hold the punctuation class are written once per character a cleaning expression or a
+	// template / format function is likely to give a meaning to
+	{
+		special := []int{}
+		for k, pc := range linePunct {
+			if pc == "$" || pc == "%" || pc == "'" || pc == ":" || pc == "(" || pc == "*" {
+				special = append(special, k+1)
+			}
+		}
+		special = special[len(special)-6:] // the last occurrence of each (the list repeats $ % ')
+		exp := []lineBeh{}
+		for _, b := range behs {
+			exp = append(exp, b)
+			hasP := false
+			for _, c := range b.Line {
+				if c == "p" || c == "%p" {
+					hasP = true
+				}
+			}
+			if hasP && b.Mode != "raw" {
+				for _, k := range special {
+					c := b
+					c.Punct = k
+					exp = append(exp, c)
+				}
+			}
+		}
+		behs = exp
+	}
 	recs := []any{}
 	routes := map[string]int{}
 	one := func(i int, b lineBeh) map[string]any {
-		text := fmt.Sprintf("type=AVC msg=audit(17000%05d.%03d:%d): apparmor=\"DENIED\" ", i%100000, i%1000, i) + concLine(b.Line, i) + "\n"
+		text := fmt.Sprintf("type=AVC msg=audit(17000%05d.%03d:%d): apparmor=\"DENIED\" ", i%100000, i%1000, i) + concLineP(b.Line, i, b.Punct) + "\n"
 		var got logs.AppArmorLogs
 		crashed := false
 		route := "file"
